@@ -102,6 +102,8 @@ def fragments(repo: str, max_frags: int = 10) -> Any:
     # text that makes a parser fail with an exception of its own (not a markup error it reports): an ordinal beyond the integer
     # conversion limit; preceded by markup the parser complains about and recovers from, and by ordinary fragments
     complaints = st.sampled_from(['Text @notfield here.\n\n', 'Text *unclosed here.\n\n', '`unclosed\n\n', '@notafield\n\n', 'Bad\n~~\n\n', '.. unknown:: x\n\n', ''])
-    crasher = st.tuples(st.lists(complaints, max_size=2), st.lists(frag, max_size=2), st.sampled_from(['%s. item\n' % ('1' * 4400), ' %s. item\n' % ('9' * 5000)])).map(
+    crasher = st.tuples(st.lists(complaints, max_size=2), st.lists(frag, max_size=2), st.sampled_from(['%s. item\n' % ('1' * 4400), ' %s. item\n' % ('9' * 5000),
+                                                                                                            # (text the parsers accept and the renderer fails on)
+                                                                                                            'nbsp\xa0here\n', 'Fields:\n\n        @ivar a: x\n    @ivar b: y\n@ivar c: z\n', 'x\uffffy\n'])).map(
         lambda t: ''.join(t[0]) + ''.join(t[1]) + ('' if (''.join(t[0]) + ''.join(t[1])).endswith('\n') or not (t[0] or t[1]) else '\n\n') + t[2])
     return st.one_of(concat, concat, concat, mutated(), mutated(), arbitrary, hard, hard, sectioned, crasher)
